@@ -322,7 +322,9 @@ class LSML_Supervised(_BaseLSML, TransformerMixin):
     else:
       self.n_constraints = n_constraints
     # Avoid test get_params from failing (all params passed sholud be set)
-    self.num_constraints = 'deprecated'
+    self.num_constraints = (num_constraints
+                            if num_constraints == 'deprecated'
+                            else 'deprecated')
     self.weights = weights
 
   def fit(self, X, y):
